@@ -682,7 +682,7 @@ def _populate_dummy():
     magic_resolver = MagicResolver()
 
     def get_dummy(name):
-        def resolve():
+        def resolve(*args):
             log.warn(f"using dummy resolver for {name}")
             return ""
 
